@@ -140,6 +140,7 @@ let handle l =
       let rec split i acc l = if i = 0 then (List.rev acc, l) else (match l with x :: t -> split (i - 1) (x :: acc) t | [] -> failwith "coreshape") in
       let (pairs, doc) = split n [] rest in
       string_of_int (int_of_n (core_shape_tbl (parse_cls cls) (dec_doc (make_reader doc)) (List.map parse_pair pairs)))
+  | "domains" :: rest -> string_of_int (int_of_n (theorem_domains (dec_doc (make_reader rest))))
   | ["strict"; t] -> bool_tok (strict_profile (str_of_tok t))
   | "echo" :: rest -> enc_doc (dec_doc (make_reader rest))
   | ["nq"; s] -> bool_tok (needs_quotes (str_of_tok s))
